@@ -70,7 +70,13 @@ class Ownership:
         self.m = ctx.model
         self.t = ctx.typer
         self.S = {q: Summ() for q in self.m.funcs}
+        self.recording = False
+        self.events = collections.defaultdict(list)   # q -> [event dict] (every effect occurrence, per node)
         self.rounds = self.fixpoint()
+        self.recording = True
+        for q in self.m.funcs:
+            Own(self, q).run()
+        self.recording = False
 
     def fixpoint(self):
         for it in range(60):
@@ -143,6 +149,9 @@ class Own:
                 continue
             d = "own" if (depth == "own" and lvl == 0) else "deep"
             k = (field, d, gated)
+            if self.eng.recording:
+                self.eng.events[self.q].append({"node": node, "param": p, "lvl": lvl, "field": field, "depth": d,
+                                                "gated": gated, "via": via})
             if k not in self.summ.mut[p]:
                 self.summ.mut[p].add(k)
                 self.summ.why[(p,) + k] = (getattr(node, "lineno", 0),
